@@ -1,0 +1,157 @@
+package document
+
+import (
+	"bytes"
+	"encoding/xml"
+	"fmt"
+	"strconv"
+)
+
+// existingPart 是打开的文档中已有 XML 部件（word/numbering.xml、word/footnotes.xml、word/endnotes.xml）的逐字视图。
+//
+// 库自己的结构体无法完整表示其他程序（以及命名空间前缀不同的部件）写出的定义，
+// 所以已有的子元素不做解析和重新生成，而是原样保留：
+// 新的定义在写入时追加到已有子元素旁边，ID 从已有的最大值之后开始。
+type existingPart struct {
+	head     []byte          // 从部件开头到根元素开始标签（含）
+	children []existingChild // 根元素的直接子元素，按原有顺序
+	tail     []byte          // 最后一个子元素之后的内容（根元素结束标签等）
+	space    string          // 根元素的命名空间
+	wBound   bool            // 根元素是否把前缀 w 绑定到该命名空间
+}
+
+// existingChild 已有部件中根元素的一个直接子元素
+type existingChild struct {
+	local string // 本地名（abstractNum、num、footnote、endnote……）
+	id    string // w:abstractNumId / w:numId / w:id 属性
+	typ   string // w:type 属性（脚注/尾注）
+	raw   []byte // 元素原文（含它前面的空白）
+}
+
+// parseExistingPart 把已有部件拆分为根元素开始标签、各个直接子元素和结尾，子元素内容保持原样。
+// 根元素不是期望的元素，或者部件不是格式良好的 XML 时返回错误。
+func parseExistingPart(data []byte, rootLocal string) (*existingPart, error) {
+	decoder := xml.NewDecoder(bytes.NewReader(data))
+	part := &existingPart{}
+	depth := 0
+	var rootStart, prevEnd int64
+	var current *existingChild
+
+	for {
+		tokenStart := decoder.InputOffset()
+		token, err := decoder.Token()
+		if err != nil {
+			// 在根元素结束之前遇到 EOF 或语法错误
+			return nil, fmt.Errorf("解析已有部件失败: %v", err)
+		}
+		tokenEnd := decoder.InputOffset()
+
+		switch t := token.(type) {
+		case xml.StartElement:
+			depth++
+			switch depth {
+			case 1:
+				if t.Name.Local != rootLocal {
+					return nil, fmt.Errorf("根元素是 %s，不是 %s", t.Name.Local, rootLocal)
+				}
+				if t.Name.Space == "" {
+					return nil, fmt.Errorf("根元素 %s 没有命名空间", rootLocal)
+				}
+				part.space = t.Name.Space
+				for _, attr := range t.Attr {
+					if attr.Name.Space == "xmlns" && attr.Name.Local == "w" && attr.Value == part.space {
+						part.wBound = true
+					}
+				}
+				rootStart = tokenStart
+				part.head = data[:tokenEnd]
+				prevEnd = tokenEnd
+			case 2:
+				current = &existingChild{local: t.Name.Local}
+				for _, attr := range t.Attr {
+					if attr.Name.Space != part.space {
+						continue
+					}
+					switch attr.Name.Local {
+					case "abstractNumId", "numId", "id":
+						current.id = attr.Value
+					case "type":
+						current.typ = attr.Value
+					}
+				}
+			}
+		case xml.EndElement:
+			depth--
+			switch depth {
+			case 1:
+				current.raw = data[prevEnd:tokenEnd]
+				part.children = append(part.children, *current)
+				current = nil
+				prevEnd = tokenEnd
+			case 0:
+				if tokenStart == tokenEnd {
+					// 自闭合的根元素（<w:numbering .../>）：改写成一对开始/结束标签，以便在其中追加子元素
+					name := data[rootStart+1 : len(part.head)-2]
+					if i := bytes.IndexAny(name, " \t\r\n"); i >= 0 {
+						name = name[:i]
+					}
+					head := append([]byte{}, part.head[:len(part.head)-2]...)
+					part.head = append(head, '>')
+					tail := append([]byte("</"), name...)
+					tail = append(tail, '>')
+					part.tail = append(tail, data[tokenEnd:]...)
+				} else {
+					part.tail = data[prevEnd:]
+				}
+				return part, nil
+			}
+		}
+	}
+}
+
+// maxID 返回已有子元素（指定本地名）的最大数字 ID；没有时返回 floor
+func (p *existingPart) maxID(local string, floor int) int {
+	max := floor
+	for _, child := range p.children {
+		if child.local != local {
+			continue
+		}
+		if n, err := strconv.Atoi(child.id); err == nil && n > max {
+			max = n
+		}
+	}
+	return max
+}
+
+// marshalInto 把一个新元素序列化后追加到 buf。
+// 库写出的元素使用前缀 w；如果已有部件的根元素没有把 w 绑定到自己的命名空间，就在新元素上声明它。
+func (p *existingPart) marshalInto(buf *bytes.Buffer, element interface{}) error {
+	data, err := xml.MarshalIndent(element, "  ", "  ")
+	if err != nil {
+		return err
+	}
+	if !p.wBound {
+		// 在元素名之后插入声明（data 以缩进开头）
+		if i := bytes.IndexByte(data, '<'); i >= 0 {
+			i += bytes.IndexAny(data[i:], " >/")
+			declared := append([]byte{}, data[:i]...)
+			var ns bytes.Buffer
+			xml.EscapeText(&ns, []byte(p.space))
+			declared = append(declared, fmt.Sprintf(` xmlns:w="%s"`, ns.String())...)
+			data = append(declared, data[i:]...)
+		}
+	}
+	buf.WriteByte('\n')
+	buf.Write(data)
+	return nil
+}
+
+// clone 返回可以独立删除子元素的副本（子元素原文本身不会被修改，可以共享）
+func (p *existingPart) clone() *existingPart {
+	if p == nil {
+		return nil
+	}
+	c := *p
+	c.children = append([]existingChild{}, p.children...)
+	return &c
+}
